@@ -38,6 +38,17 @@ def handle (op : String) (args : Array String) : Option String :=
       let input := (idxList orderS).map (fun i => arr[i]!)
       let out := if kind == "auth" then reverseTopoAuth [] (getCreateEvent input) input else reverseTopoPrev input
       some (",".intercalate (out.map (fun e => bytesStr e.eventID)))
+  | "linearise", ver :: stateS :: authS :: evArgs =>
+    -- `LineariseStateResponse`: auth events and state events are put into a map by event ID (the state event wins) and the
+    -- map's values are ordered by auth events; the untrusted parse redacts these hash-less events, which changes none of
+    -- the fields the ordering reads (sender, timestamp, ID, auth_events)
+    match parseEvArgs (strBytes ver) evArgs with
+    | none => some "bad-op"
+    | some es =>
+      let arr := es.toArray
+      let input := eventMapFromEvents (((idxList stateS) ++ (idxList authS)).map (fun i => arr[i]!))
+      let out := reverseTopoAuth [] (getCreateEvent input) input
+      some (",".intercalate (out.map (fun e => bytesStr e.eventID)))
   | "order_props", ver :: resH :: kind :: orderS :: evArgs =>
     match parseEvArgs (strBytes ver) evArgs with
     | none => some "bad-op"
